@@ -2,6 +2,8 @@ import Tfv.Model
 import Tfv.Spec.Flow
 import Tfv.Proofs.FlowGen
 import Tfv.Proofs.FlowExamples
+import Tfv.Proofs.FlowGenS
+import Tfv.Proofs.FlowExamplesS
 /-!
 # C08 — the `from` edges of a transformation graph are the data flow of the expression
 
@@ -46,10 +48,15 @@ first-order, so the first-order and higher-order theorems do not speak about the
    internal pairs are literally, and the `from` edges as a set, those of the recursive layout
    `flowHO`, whose spine case is `spineInts`/`spineEdges`: the edges inside the arguments, the
    one-level edges `hofEdges` at the receiving step, and the nested rule. This subsumes 2 and 3
-   (`C08_hof_class`) up to the order of the edge list. Expressions outside the class (a source at
-   the head of a spine or passed as an operation, shared expression objects) are left to the
-   differential test against an independent Python construction; `C08_source_head_splits_spine`
-   shows what the model does for a source at the head.
+   (`C08_hof_class`) up to the order of the edge list.
+5. `C08_hofS_general`: the same at any depth for the wider class `HofS`, in which a passed operation may
+   also be a *source* of function type, the same one as often as one likes, inside and outside nested
+   operations (`k s s`, `h (u s) s`). The layout is the same `flowHO`; the state must not have internal
+   nodes hanging off source nodes (`SrcNoInt`, kept: `C08_hofS_general_fresh`). `C08_hofS_subsumes`: the
+   class of 4 is a subclass. `C08_hofS_step`, `C08_hofS_repeated`: the receiving step's argument list and
+   the reading of the `repeated` rule. Expressions outside `HofS` (a source at the head of a spine with
+   arguments, shared expression objects) are left to the differential test against an independent
+   Python construction; `C08_source_head_splits_spine` shows what the model does for a source at the head.
 
 Statements only; proofs in `Tfv/Proofs/Flow*.lean` (namespace `Tfv.C08P`).
 -/
@@ -462,6 +469,185 @@ theorem C08_hof_general_fresh (G : GLang) (c : GCfg) (root : Node) (origin : Opt
     (hg : GFresh g) (hcur : ∀ m, cur = some m → CurFree g m)
     (h : addExpr G c root origin g e cur im = .ok (g', n)) : GFresh g' :=
   addExpr_hof_general_fresh hc hof hh hg hcur h
+
+/-! ## 5. operations and sources of function type passed as arguments at any depth -/
+
+/-- The class `HofS`: `hofS` decides it; it contains the class `Hof` of section 4 (hence the first-order
+expressions and the one-level spines of section 3); and it is what the words say: an expression of the class
+is a source or a spine with an operator at its head all of whose arguments are in the class, so an argument of
+function type is an operator-headed passed operation or a source. -/
+theorem C08_hofS_class :
+    (∀ e, hofS e = true ↔ HofS e) ∧ (∀ e, Hof e → HofS e) ∧
+    (∀ e, HofS e → (∃ id l t, e = .src id l t) ∨ ∃ name ty, headOf e = .op name ty) ∧
+    (∀ e name ty, HofS e → headOf e = .op name ty → ∀ a ∈ argsOf e, HofS a) :=
+  ⟨fun e => ⟨hofS_sound e, hofS_complete e⟩, fun _ h => hofS_of_hof h, fun _ h => hofS_head h,
+    fun _ _ _ h hh => hofS_args h hh⟩
+
+/-- Every expression of the class `Hof` is in the class `HofS`, so `C08_hof_general` is the special case of
+`C08_hofS_general` (for states with `SrcNoInt`) in which no source is passed as an operation. -/
+theorem C08_hofS_subsumes (e : TExpr) (h : Hof e) : HofS e := hofS_of_hof h
+
+/-- `k s s` and `h (u s) s` are in `HofS` and not in `Hof`; `h (u v) x` is in both. -/
+example : HofS exRep ∧ ¬ Hof exRep ∧ HofS exNestS ∧ ¬ Hof exNestS ∧ Hof exNested ∧ HofS exNested ∧
+    hofS exMix = true :=
+  ⟨exRep_hofS, exRep_not_hof, exNestS_hofS, exNestS_not_hof, exNested_hof, hofS_of_hof exNested_hof, by decide⟩
+
+/-- Operations and sources of function type passed as arguments, at any depth. For an expression `e` of the
+class `HofS` with an operator at its head, added to a consistent state (`GFresh`, a reserved node is unused)
+in which no internal node hangs off a source node (`SrcNoInt`), the layout `flowHOTop` (= `flowHO` started with
+the reserved node, or with the next unused one) describes the result exactly: result node, counter, source map;
+the internal pairs (the old ones followed by `ints`, all new and distinct); and the `from` edges as a set (the
+old ones and `edges`). For a spine with node `n` and arguments `a₁ … aₖ` (`C08_flowHO_spine`), `ints` is per
+argument the pair `(n, λᵢ)` if `aᵢ` has a function type, followed by the pairs made inside `aᵢ`, and `edges` is
+`spineEdges`, which in words says:
+* the edges inside the arguments;
+* `n → node(aᵢ)` for every argument (`n` from `node(aᵢ)`);
+* `node(aᵢ) → λᵢ` for every argument of function type: the passed operation is fed by the internal node in
+  front of it. The model has no abstractions, so this holds for every function-typed argument, and when `aᵢ`
+  is a source passed at several positions its one node is fed by each of these internal nodes;
+* `λᵢ → node(aⱼ)` for every function-typed `aᵢ` and every other *position* `j ≠ i` (`hofEdges` speaks of
+  positions, not of nodes). Hence `λᵢ → node(aᵢ)` is an edge exactly when `node(aᵢ)` is also the node of the
+  argument at another position (`C08_hofS_repeated`): for an earlier position `j < i` this is the `repeated`
+  rule of graph.py (the argument's node is an input of `n` already when `λᵢ` collects the inputs of `n`); for a
+  later position `j > i` it is the rule that every internal node of `n` receives each later argument;
+* `μ → λᵢ` for every internal node `μ` attached to `node(aᵢ)` by the layout of `aᵢ` (nesting). For a source
+  `aᵢ` there are none, and the graph has none either because of `SrcNoInt`.
+A node is `node(aᵢ)` for a source `aᵢ` however and wherever the source is used (one node per source id, as data
+or as a passed operation, inside or outside nested operations): the source map `memo` is threaded through. -/
+theorem C08_hofS_general (G : GLang) (c : GCfg) (root : Node) (origin : Option Node)
+    (hc : c.withTypes = false) (g g' : GState) (e : TExpr) (cur : Option Nat) (im : Bool) (n : Nat)
+    (name : String) (ty : Term) (hof : HofS e) (hh : headOf e = .op name ty)
+    (hg : GFresh g) (hs : SrcNoInt g) (hcur : ∀ m, cur = some m → CurFree g m)
+    (h : addExpr G c root origin g e cur im = .ok (g', n)) :
+    n = (allocNode g.nextB cur).1 ∧
+    n = (flowHOTop g.nextB g.srcNodes e cur).node ∧
+    g'.nextB = (flowHOTop g.nextB g.srcNodes e cur).next ∧
+    g'.srcNodes = (flowHOTop g.nextB g.srcNodes e cur).memo ∧
+    g'.sharedNodes = g.sharedNodes ∧
+    g'.internals = g.internals ++ (flowHOTop g.nextB g.srcNodes e cur).ints ∧
+    (∀ p, p ∈ g'.fd.frm ↔ p ∈ g.fd.frm ∨ (flowHOTop g.nextB g.srcNodes e cur).edges p) ∧
+    ((flowHOTop g.nextB g.srcNodes e cur).ints.map Prod.snd).Nodup ∧
+    (∀ q ∈ (flowHOTop g.nextB g.srcNodes e cur).ints, g.nextB ≤ q.2 ∧ q.2 < g'.nextB) :=
+  addExpr_hofS_general hc hof hh hg hs hcur h
+
+/-- `k s s` with the source `s : A ** A` passed twice: in the class, the empty state qualifies; the layout
+evaluated from its definition has node 0, the one source node 1 and the internal pairs `(0, 2)`, `(0, 4)`; its
+edge set has `2 → 1` and `4 → 1`; and that is what the graph code produces. -/
+example : HofS exRep ∧ headOf exRep = .op "k" tFFA ∧ GFresh {} ∧ SrcNoInt {} ∧
+    ((flowHOTop 0 [] exRep none).node = 0 ∧ (flowHOTop 0 [] exRep none).next = 5 ∧
+      (flowHOTop 0 [] exRep none).memo = [(3, 1)] ∧ (flowHOTop 0 [] exRep none).ints = [(0, 2), (0, 4)]) ∧
+    (∀ p, (flowHOTop 0 [] exRep none).edges p ↔ p ∈ [(4, 1), (2, 1), (0, 1), (1, 4), (0, 1), (1, 2)]) ∧
+    summary (addExpr exG exCfg (.res "w") none {} exRep none false) =
+      some ([(4, 1), (2, 1), (0, 1), (1, 4), (0, 1), (1, 2)], [(0, 2), (0, 4)], [(3, 1)], 5, 0) :=
+  ⟨exRep_hofS, rfl, gfresh_empty, srcNoInt_empty, exRep_layoutS, exRep_edgesS, by decide +kernel⟩
+
+/-- `h (u s) s` — nested, and the same source inside and outside: `u s : A ** A` is passed to `h`, the source
+`s : A ** A` is passed to `u` and once more to `h`. Nodes: 0 = `h …`, 1 = `u s` with internal node 2 (of `h`),
+3 = `s` with internal node 4 (of `u`); the second `s` is node 3 again, with internal node 6 (of `h`). The source
+node 3 is fed by both 4 and 6; `4 → 2` is the nested rule; `2 → 3` and `6 → 1` are the "other argument" edges. -/
+example : HofS exNestS ∧ headOf exNestS = .op "h" tFFA ∧
+    ((flowHOTop 0 [] exNestS none).node = 0 ∧ (flowHOTop 0 [] exNestS none).next = 7 ∧
+      (flowHOTop 0 [] exNestS none).memo = [(3, 3)] ∧
+      (flowHOTop 0 [] exNestS none).ints = [(0, 2), (1, 4), (0, 6)] ∧
+      ∀ p, (flowHOTop 0 [] exNestS none).edges p ↔
+        p ∈ [(6, 1), (2, 3), (0, 3), (3, 6), (4, 2), (0, 1), (1, 2), (1, 3), (3, 4)]) ∧
+    summary (addExpr exG exCfg (.res "w") none {} exNestS none false) =
+      some ([(6, 1), (2, 3), (0, 3), (3, 6), (4, 2), (0, 1), (1, 2), (1, 3), (3, 4)], [(0, 2), (1, 4), (0, 6)],
+        [(3, 3)], 7, 0) :=
+  ⟨exNestS_hofS, rfl, exNestS_layout, by decide +kernel⟩
+
+/-- `f (k s s) (g s')`, where `s'` has the source id of `s` but is read at the data type `A`: the source is passed
+twice as an operation (inside the argument `k s s`) and used once as data; one node (2) for all three uses. -/
+example : HofS exMix ∧ headOf exMix = .op "f" tAAA ∧
+    ((flowHOTop 0 [] exMix none).node = 0 ∧ (flowHOTop 0 [] exMix none).next = 8 ∧
+      (flowHOTop 0 [] exMix none).memo = [(3, 2)] ∧ (flowHOTop 0 [] exMix none).ints = [(1, 3), (1, 5)] ∧
+      ∀ p, (flowHOTop 0 [] exMix none).edges p ↔
+        p ∈ [(0, 6), (6, 2), (0, 1), (5, 2), (3, 2), (1, 2), (2, 5), (1, 2), (2, 3)]) ∧
+    summary (addExpr exG exCfg (.res "w") none {} exMix none false) =
+      some ([(0, 6), (6, 2), (0, 1), (5, 2), (3, 2), (1, 2), (2, 5), (1, 2), (2, 3)], [(1, 3), (1, 5)], [(3, 2)], 8, 0) :=
+  ⟨exMix_hofS, rfl, exMix_layout, by decide +kernel⟩
+
+/-- An expression of the class keeps the state consistent and free of internal nodes hanging off source nodes,
+so the theorems can be applied to the next expression. -/
+theorem C08_hofS_general_fresh (G : GLang) (c : GCfg) (root : Node) (origin : Option Node)
+    (hc : c.withTypes = false) (g g' : GState) (e : TExpr) (cur : Option Nat) (im : Bool) (n : Nat)
+    (name : String) (ty : Term) (hof : HofS e) (hh : headOf e = .op name ty)
+    (hg : GFresh g) (hs : SrcNoInt g) (hcur : ∀ m, cur = some m → CurFree g m)
+    (h : addExpr G c root origin g e cur im = .ok (g', n)) : GFresh g' ∧ SrcNoInt g' :=
+  addExpr_hofS_general_fresh hc hof hh hg hs hcur h
+
+example : HofS exNestS ∧ headOf exNestS = .op "h" tFFA ∧ GFresh {} ∧ SrcNoInt {} ∧
+    (∀ m, (none : Option Nat) = some m → CurFree {} m) :=
+  ⟨exNestS_hofS, rfl, gfresh_empty, srcNoInt_empty, fun _ hm => by cases hm⟩
+
+/-- The argument list of the receiving step (`spineArgInfos`: per argument its node and, for a function type,
+the internal node in front of it; `hofEdges n` of this list is part of the layout's edge set, see
+`C08_hofS_repeated`): the arguments of function type are exactly those with an internal node; the internal
+nodes are pairwise distinct, new, different from the step's node `n` and from every argument's node; no
+argument's node is `n`. -/
+theorem C08_hofS_step (G : GLang) (c : GCfg) (root : Node) (origin : Option Node)
+    (hc : c.withTypes = false) (g g' : GState) (e : TExpr) (cur : Option Nat) (im : Bool) (n : Nat)
+    (name : String) (ty : Term) (hof : HofS e) (hh : headOf e = .op name ty)
+    (hg : GFresh g) (hs : SrcNoInt g) (hcur : ∀ m, cur = some m → CurFree g m)
+    (h : addExpr G c root origin g e cur im = .ok (g', n)) :
+    (spineArgInfos (allocNode g.nextB cur).2 g.srcNodes e).map (fun a => a.lam.isSome) =
+      (argsOf e).map (fun a => a.ty.isFunction) ∧
+    ((spineArgInfos (allocNode g.nextB cur).2 g.srcNodes e).filterMap (fun a => a.lam)).Nodup ∧
+    (∀ a ∈ spineArgInfos (allocNode g.nextB cur).2 g.srcNodes e, a.node ≠ n ∧ a.node < g'.nextB ∧
+      ∀ l, a.lam = some l → g.nextB ≤ l ∧ l < g'.nextB ∧ l ≠ n ∧
+        ∀ b ∈ spineArgInfos (allocNode g.nextB cur).2 g.srcNodes e, b.node ≠ l) :=
+  addExpr_hofS_spine_args hc hof hh hg hs hcur h
+
+/-- The `repeated` rule, read off the graph. Let `args` be the argument list of the receiving step `n`, and `λ`
+the internal node in front of the argument at position `i`. Every pair of `hofEdges n args` is a `from` edge of
+the graph; and the pair `λ → node(aᵢ)` (the internal node receives the node of its own argument) is one of them
+exactly when `node(aᵢ)` is also the node of the argument at some other position `j` — which happens only when
+the same source is passed at both positions. (At the moment `λ` is wired the model tests the positions `j < i`,
+graph.py's `repeated`; for `j > i` the edge is added when the later argument is wired.) -/
+theorem C08_hofS_repeated (G : GLang) (c : GCfg) (root : Node) (origin : Option Node)
+    (hc : c.withTypes = false) (g g' : GState) (e : TExpr) (cur : Option Nat) (im : Bool) (n : Nat)
+    (name : String) (ty : Term) (hof : HofS e) (hh : headOf e = .op name ty)
+    (hg : GFresh g) (hs : SrcNoInt g) (hcur : ∀ m, cur = some m → CurFree g m)
+    (h : addExpr G c root origin g e cur im = .ok (g', n))
+    (i : Nat) (hi : i < (spineArgInfos (allocNode g.nextB cur).2 g.srcNodes e).length) (l : Nat)
+    (hl : (spineArgInfos (allocNode g.nextB cur).2 g.srcNodes e)[i].lam = some l) :
+    (hofEdges n (spineArgInfos (allocNode g.nextB cur).2 g.srcNodes e)
+        (l, (spineArgInfos (allocNode g.nextB cur).2 g.srcNodes e)[i].node) ↔
+      ∃ (j : Nat) (hj : j < (spineArgInfos (allocNode g.nextB cur).2 g.srcNodes e).length), j ≠ i ∧
+        (spineArgInfos (allocNode g.nextB cur).2 g.srcNodes e)[j].node =
+          (spineArgInfos (allocNode g.nextB cur).2 g.srcNodes e)[i].node) ∧
+    (∀ p, hofEdges n (spineArgInfos (allocNode g.nextB cur).2 g.srcNodes e) p → p ∈ g'.fd.frm) :=
+  addExpr_hofS_repeated hc hof hh hg hs hcur h i hi l hl
+
+/-- `k s s`: the step sees the positions `⟨1, some 2⟩`, `⟨1, some 4⟩` — two positions, one node — so both `2 → 1`
+and `4 → 1` are edges. `h (u s) s`: the positions `⟨1, some 2⟩`, `⟨3, some 6⟩` have different nodes, and neither
+`2 → 1` nor `6 → 3` is an edge of the graph. -/
+example : spineArgInfos 1 [] exRep = [⟨1, some 2⟩, ⟨1, some 4⟩] ∧
+    spineArgInfos 1 [] exNestS = [⟨1, some 2⟩, ⟨3, some 6⟩] ∧
+    (2, 1) ∉ [(6, 1), (2, 3), (0, 3), (3, 6), (4, 2), (0, 1), (1, 2), (1, 3), (3, 4)] ∧
+    (6, 3) ∉ [(6, 1), (2, 3), (0, 3), (3, 6), (4, 2), (0, 1), (1, 2), (1, 3), (3, 4)] :=
+  ⟨exRep_argInfos, exNestS_argInfos, by decide, by decide⟩
+
+/-- Why `SrcNoInt` is a hypothesis. In the consistent state `exBadG` (counter 8, source `s` with node 7, and the
+internal node 5 hanging off node 7, as a source at the head of a spine that is given an operation leaves it) the
+expression `h s x` of the class gets the edge `5 → 10` from the old internal node to the new one in front of `s`
+(the nested rule applies to whatever hangs off the argument's node). That edge is neither old nor an edge of the
+layout, so the edge description of `C08_hofS_general` is false for this state. -/
+theorem C08_hofS_needs_srcNoInt (g' : GState) (n : Nat)
+    (h : addExpr exG exCfg (.res "w") none exBadG exHofS none false = .ok (g', n)) :
+    HofS exHofS ∧ headOf exHofS = .op "h" tFAA ∧ GFresh exBadG ∧ ¬ SrcNoInt exBadG ∧
+    exBadG.nextB = 8 ∧ exBadG.srcNodes = [(3, 7)] ∧
+    ¬ (∀ p, p ∈ g'.fd.frm ↔ p ∈ exBadG.fd.frm ∨ (flowHOTop 8 [(3, 7)] exHofS none).edges p) := by
+  obtain ⟨h1, h2, h3⟩ := exBad_fails g' n h
+  refine ⟨hofS_sound _ (by decide), rfl, exBad_fresh.1, exBad_fresh.2, rfl, rfl, ?_⟩
+  intro hall
+  rcases (hall (5, 10)).1 h1 with h' | h'
+  · exact h2 h'
+  · exact h3 h'
+
+example : summary (addExpr exG exCfg (.res "w") none exBadG exHofS none false) =
+    some ([(10, 11), (8, 11), (5, 10), (8, 7), (7, 10)], [(7, 5), (8, 10)], [(3, 7), (0, 11)], 12, 8) := by
+  decide +kernel
 
 /-! ## a model oddity -/
 
